@@ -15,6 +15,7 @@ import (
 	"encoding/json"
 	"errors"
 	"fmt"
+	"io"
 	"os"
 	"path/filepath"
 	"strconv"
@@ -147,6 +148,14 @@ func (b *blobWrap) GetBytes(a oid.Address) ([]byte, error) {
 		return nil, errInjected
 	}
 	return b.Storage.GetBytes(a)
+}
+
+func (b *blobWrap) GetStream(a oid.Address) (*object.Object, io.ReadCloser, error) {
+	b.rec.add(b.idx, 'G')
+	if b.failRead {
+		return nil, nil, errInjected
+	}
+	return b.Storage.GetStream(a)
 }
 
 func (b *blobWrap) Head(a oid.Address) (*object.Object, error) {
